@@ -57,7 +57,23 @@ K1 = {
     # C07
     "usize_from_no_panic":      ("quick", [], "proof", None, 600),
 }
-TABLES = {"K1_numbers": K1}
+# Unit R: the real runtime functions over ModelData; every harness is a BOUNDED stand-in (stated bound), never counted as proved
+RB = "ModelData: at most 12 cells, sequences of at most 3 elements, characters from a 3-letter alphabet, 32-bit integer numbers; loops unwound 8-10 times with unwinding assertions on"
+R = {
+    "eq_text":            ("quick", ["C11"], "bounded", RB, 900),
+    "eq_text_symmetric":  ("quick", ["C11"], "bounded", RB, 900),
+    "eq_bytes":           ("quick", ["C11"], "bounded", RB, 900),
+    "eq_concatenations":  ("quick", ["C11"], "bounded", RB, 900),
+    "cmp_text":           ("thorough", ["C12"], "bounded", RB, 1800),
+    "truthiness":         ("quick", ["C10"], "bounded", RB, 900),
+    "defer_protocol":     ("quick", ["C08"], "bounded", RB, 900),
+    "access_list":        ("quick", ["C16"], "bounded", RB, 900),
+}
+TABLES = {"K1_numbers": K1, "R_refuter": R}
+UNIT_CFG = {
+    "K1_numbers": {"extra": [], "src": "data/src/data/number.rs", "key_dirs": ["data/src/data"], "key_files": ["traits/src/data.rs"], "replay_bin": "replay_k1", "panic_prop": "C07"},
+    "R_refuter": {"extra": ["-Z", "stubbing"], "src": "runtime/src/runtime/*.rs over units/R_refuter/src/model.rs", "key_dirs": ["runtime/src", "traits/src", "data/src/data"], "key_files": [], "replay_bin": "replay_r", "panic_prop": None},
+}
 TIER_ORDER = {"quick": 0, "thorough": 1, "deep": 2}
 
 PANIC_WORDS = ("overflow", "shift", "index out of bounds", "unwrap", "unreachable", "NaN", "division by zero", "attempt to", "dereference",
@@ -94,7 +110,11 @@ def run_harness(crate, env, h, timeout, extra=None):
     cmd = ["cargo", "kani", "--harness", "harness::" + h, "--exact", "--output-format", "terse"] + (extra or [])
     t0 = time.time()
     import signal
-    proc = subprocess.Popen(cmd, cwd=crate, env=env, stdout=subprocess.PIPE, stderr=subprocess.STDOUT, text=True, start_new_session=True)
+    def _limits():
+        import resource
+        cap = int(os.environ.get("VERIF_KANI_MEM_GB", "20")) * (1 << 30)
+        resource.setrlimit(resource.RLIMIT_AS, (cap, cap))
+    proc = subprocess.Popen(cmd, cwd=crate, env=env, stdout=subprocess.PIPE, stderr=subprocess.STDOUT, text=True, start_new_session=True, preexec_fn=_limits)
     try:
         out, _ = proc.communicate(timeout=timeout)
         status = "ran"
@@ -129,8 +149,8 @@ def parse(out):
     return res
 
 
-def concrete_values(crate, env, h, timeout):
-    r = run_harness(crate, env, h, timeout, extra=["-Z", "concrete-playback", "--concrete-playback=print"])
+def concrete_values(crate, env, h, timeout, extra0=None):
+    r = run_harness(crate, env, h, timeout, extra=(extra0 or []) + ["-Z", "concrete-playback", "--concrete-playback=print"])
     vals = []
     block = re.search(r"let concrete_vals: Vec<Vec<u8>> = vec!\[(.*?)\];", r["out"], re.S)
     if block:
@@ -146,12 +166,13 @@ def run(unit, tier, props, repo):
            "cmd": "", "wall_s": 0.0, "solver_s": 0.0, "canaries": {}}
     listing = tier == "list"
     want_tier = "quick" if listing else tier
+    cfg = UNIT_CFG[unit]
     hs = [h for h, (t, p, k, b, to) in table.items() if TIER_ORDER[t] <= TIER_ORDER.get(want_tier, 0)
-          and (not props or set(p) & set(props) or (not p and "C07" in props) or "C07" in props)]
+          and (not props or set(p) & set(props) or (cfg["panic_prop"] and cfg["panic_prop"] in props))]
     def obl(h, clause, kind, status, detail=None, **kw):
         t, p, k, b, to = table[h]
-        pr = list(p) if clause == "contract" else ["C07"]
-        o = {"name": f"{unit}.{h}.{clause}", "unit": unit, "fn": h, "clause": clause, "props": pr, "src": "data/src/data/number.rs",
+        pr = list(p) if clause == "contract" else ([cfg["panic_prop"]] if cfg["panic_prop"] else list(p))
+        o = {"name": f"{unit}.{h}.{clause}", "unit": unit, "fn": h, "clause": clause, "props": pr, "src": cfg["src"],
              "backend": "kani+cbmc+cadical", "kind": k if clause == "contract" else ("proof" if k == "proof" else "bounded"), "status": status}
         if b: o["bound"] = b
         if detail: o["detail"] = detail
@@ -166,17 +187,19 @@ def run(unit, tier, props, repo):
     crate = prepare(unit, repo)
     env = _env(unit, repo)
     # build once (codegen only) so the parallel runs only verify
-    b = subprocess.run(["cargo", "kani", "--only-codegen"], cwd=crate, env=env, capture_output=True, text=True)
+    b = subprocess.run(["cargo", "kani", "--only-codegen"] + cfg["extra"], cwd=crate, env=env, capture_output=True, text=True)
     if b.returncode != 0:
         res["undecided"].append("kani build failed: " + (b.stderr or b.stdout)[-1500:])
         res["wall_s"] = time.time() - t0
         return res
     # result cache keyed by the sources that reach the harnesses
     key_src = ""
-    for root, _, files in os.walk(os.path.join(repo, "data", "src", "data")):
-        for f in sorted(files):
-            key_src += open(os.path.join(root, f), errors="replace").read()
-    key_src += open(os.path.join(repo, "traits", "src", "data.rs")).read()
+    for kd in cfg["key_dirs"]:
+        for root, _, files in sorted(os.walk(os.path.join(repo, kd))):
+            for f in sorted(files):
+                key_src += open(os.path.join(root, f), errors="replace").read()
+    for kf in cfg["key_files"]:
+        key_src += open(os.path.join(repo, kf)).read()
     for root, _, files in os.walk(os.path.join(VERIF, "units", unit, "src")):
         for f in sorted(files):
             key_src += open(os.path.join(root, f)).read()
@@ -188,7 +211,7 @@ def run(unit, tier, props, repo):
         except Exception: cache = {}
     todo = [h for h in hs if h not in cache]
     with ThreadPoolExecutor(max_workers=int(os.environ.get("VERIF_JOBS", "12"))) as ex:
-        for r in ex.map(lambda h: run_harness(crate, env, h, table[h][4]), todo):
+        for r in ex.map(lambda h: run_harness(crate, env, h, table[h][4], extra=cfg["extra"]), todo):
             p = parse(r["out"])
             cache[r["harness"]] = {"status": r["status"], "wall_s": r["wall_s"], "cmd": r["cmd"], "parsed": p, "tail": r["out"][-3000:]}
     with open(cpath, "w") as fh:
@@ -197,7 +220,7 @@ def run(unit, tier, props, repo):
     for h in hs:
         c = cache[h]; p = c["parsed"]
         res["solver_s"] += p.get("time_s") or 0
-        res["functions"].append({"name": h, "src": "data/src/data/number.rs", "stub": False, "solver_s": p.get("time_s"), "checks": p.get("checks")})
+        res["functions"].append({"name": h, "src": cfg["src"], "stub": False, "solver_s": p.get("time_s"), "checks": p.get("checks")})
         if c["status"] == "timeout" or p["verdict"] in (None, "NOHARNESS"):
             res["undecided"].append(f"harness {h}: {c['status']} / {p['verdict']}")
             continue
@@ -210,7 +233,7 @@ def run(unit, tier, props, repo):
         if p["verdict"] == "FAILED":
             vals = c.get("concrete")
             if vals is None:
-                vals = concrete_values(crate, env, h, table[h][4])
+                vals = concrete_values(crate, env, h, table[h][4], cfg["extra"])
                 c["concrete"] = vals
                 with open(cpath, "w") as fh:
                     json.dump(cache, fh)
@@ -227,6 +250,11 @@ def run(unit, tier, props, repo):
             res["obligations"].append(obl(h, "contract", table[h][2], st, detail=[{"message": m} for m in contract_fail] or None, checks=p.get("checks"), solver_s=p.get("time_s"), **(extra if st == "failed" else {})))
         st = "failed" if panic_fail else "discharged"
         res["obligations"].append(obl(h, "no_panic", table[h][2], st, detail=[{"message": m} for m in panic_fail] or None, checks=p.get("checks"), solver_s=p.get("time_s"), **(extra if st == "failed" else {})))
+    if unit == "R_refuter":
+        res["assumed"] = [{"name": "R_refuter: ModelData", "why": "an executable GarnishData implementation written in /verif that follows the trait contract; it stands for any conforming data object at bounded size", "clauses": []},
+                          {"name": "R_refuter: alloc::fmt::format stubbed", "why": "error-message formatting carries no property", "clauses": []}]
+        res["wall_s"] = time.time() - t0
+        return res
     res["assumed"] = [{"name": f"{unit}: f64::powf / f64 % f64", "why": "libm calls CBMC does not model; float power and remainder are not verified", "clauses": []},
                       {"name": f"{unit}: i32 -> f64 conversion is exact", "why": "used to read the mixed integer/float order as the order of the denoted reals", "clauses": []}]
     res["wall_s"] = time.time() - t0
@@ -238,10 +266,11 @@ def replay_k1_capture(unit, h, hexes, repo):
     crate = prepare(unit, repo)
     env = _env(unit, repo)
     env["CARGO_TARGET_DIR"] = env["CARGO_TARGET_DIR"] + "-replay"
-    b = subprocess.run(["cargo", "build", "--offline", "--bin", "replay_k1"], cwd=crate, env=env, capture_output=True, text=True)
+    rb = UNIT_CFG[unit]["replay_bin"]
+    b = subprocess.run(["cargo", "build", "--offline", "--bin", rb], cwd=crate, env=env, capture_output=True, text=True)
     if b.returncode != 0:
         return {"rc": 2, "line": "replay build failed: " + b.stderr[-400:]}
-    exe = os.path.join(env["CARGO_TARGET_DIR"], "debug", "replay_k1")
+    exe = os.path.join(env["CARGO_TARGET_DIR"], "debug", rb)
     try:
         p = subprocess.run([exe, h] + hexes, capture_output=True, text=True, timeout=60)
     except subprocess.TimeoutExpired:
@@ -253,10 +282,11 @@ def replay_k1(unit, h, hexes, repo):
     crate = prepare(unit, repo)
     env = _env(unit, repo)
     env["CARGO_TARGET_DIR"] = env["CARGO_TARGET_DIR"] + "-replay"
-    b = subprocess.run(["cargo", "build", "--offline", "--bin", "replay_k1"], cwd=crate, env=env, capture_output=True, text=True)
+    rb = UNIT_CFG[unit]["replay_bin"]
+    b = subprocess.run(["cargo", "build", "--offline", "--bin", rb], cwd=crate, env=env, capture_output=True, text=True)
     if b.returncode != 0:
         print(b.stderr[-2000:]); return 2
-    exe = os.path.join(env["CARGO_TARGET_DIR"], "debug", "replay_k1")
+    exe = os.path.join(env["CARGO_TARGET_DIR"], "debug", rb)
     p = subprocess.run([exe, h] + hexes, capture_output=True, text=True)
     print(p.stdout.strip())
     return p.returncode
